@@ -25,7 +25,7 @@ def check_c17(tier, replay):
     props = ["ExactlyOnceSoFar", "NeverEarly", "Prompt", "Covered", "NoStuckDrain", "ExactTime"]
     try:
         if replay:
-            raise MachineryError("C17 violations are reproduced by re-running the check with the same VERIF_SEED")
+            vlib.replay_as_rerun(v, replay)   # everything is derived from the seed and tier recorded in the replay file
         # 1. MC under both timer-channel semantics
         for (name, text) in [("mc_c17_sync.cfg", ts_cfg(2, 4 if th else 3, "RelB" if th else "RelA", 6 if th else 4, False, props)),
                              ("mc_c17_async.cfg", ts_cfg(2, 4 if th else 3, "RelB" if th else "RelA", 6 if th else 4, True, props)),
